@@ -1221,6 +1221,14 @@ func (c *specCtx) call(n *SCall) (Val, types.Type) {
 			c.fail("streamAt needs an io.Reader value")
 		}
 		return scalar(tb.App("stream", SInt, readerKey(tb, v), i.T[0])), untypedInt
+	case "log10width":
+		// log10width(n): the engine's term for the Go expression int(math.Ceil(math.Log10(float64(n)))) (floating point is not
+		// interpreted: two occurrences of this very expression are equal, anything else is not known to be)
+		v, _ := arg(0)
+		t := tb.App("int2float", SInt, v.T[0])
+		t = tb.App("lib_math_Log10_0", SInt, t)
+		t = tb.App("lib_math_Ceil", SInt, t)
+		return scalar(tb.App("float2int_"+typeKey(types.Typ[types.Int]), SInt, t)), untypedInt
 	case "flagset":
 		// flagset(&x.f): the ghost state of an atomic flag (polycry atomic.Bool)
 		v, _ := arg(0)
